@@ -87,3 +87,19 @@ func providerRank(pkg string) int {
 	}
 	return len(sharedProviders)
 }
+
+// ghostSortAt is ghostSortOf with knowledge of the state: a loop ghost initialised from another ghost or from the witness
+// of a native model (`ghost pos = SortedKeys_pos`) has that ghost's sort.
+func ghostSortAt(st *State, init *SExpr) Sort {
+	if init != nil && init.Kind == "ident" {
+		if v, ok := st.ghost[init.Op].(Sc); ok {
+			return v.T.Sort
+		}
+		for _, suf := range []string{"_pos", "_pi", "_inv"} {
+			if strings.HasSuffix(init.Op, suf) {
+				return arrSort(SInt, SInt)
+			}
+		}
+	}
+	return ghostSortOf(init)
+}
